@@ -152,7 +152,9 @@ theorem scale_is_affine (d : ℕ) (m : K) :
   scalePt_affOn d m
 
 /-- The model's rotation of 3-D points about coordinate axis `axis` is the linear map with the
-    rotation matrix `rotMat axis c s`, for ANY numbers `c`, `s`. -/
+    rotation matrix `rotMat axis c s`, for ANY numbers `c`, `s`.  (A fact about the point map `rotatePt`; the library
+    accepts `axis ∈ {0, 1, 2}` only – for other values `operations.rotate` raises, the driver answers `ERR`, and the model
+    formulas fall into the y-axis case: the object-level theorems below carry `axis ≤ 2`.) -/
 theorem rotate_is_affine_3d (axis : ℕ) (c s : K) : AffOn 3 (rotatePt axis c s) (rotMat axis c s) (fun _ => 0) :=
   rotatePt_affOn3 axis c s
 
@@ -253,8 +255,9 @@ example : project (volumePointAt 1 1 1 (fnOf ([0,0,1,1] : List ℚ)) (fnOf ([0,0
     `Shape.pointAt S t` is the evaluated point of the curve / surface / volume `S` at the parameter tuple
     `(t 0, t 1, t 2)`, projected when `S` is rational – literally the expression the model's `startPoint`
     evaluates.  `ShapeWF d S`: 1–3 parametric directions, each with a well-formed knot function
-    (non-decreasing, at least degree + 1 control points, non-empty last span), the net has the right number
-    of points with `d` (`d + 1` when rational) coordinates, weights of a rational shape positive.
+    (non-decreasing, at least degree + 1 control points, non-empty last span) given by a knot list of exactly
+    `size + degree + 1` knots, degree ≥ 1 (as the driver's `shapeOk` and the library's setters demand), the net has the
+    right number of points with `d` (`d + 1` when rational) coordinates, weights of a rational shape positive.
     `S.InDom t`: every `t i` lies in the closed domain `[U_p, U_n]` of its direction. -/
 
 /-- `Shape.pointAt` of a curve shape is `curvePoint` on the shape's data (projected when rational).
@@ -323,17 +326,18 @@ theorem scale_moves_every_point {d : ℕ} {S : Shape K} (h : ShapeWF d S) (m : K
     (t : ℕ → K) (ht : S.InDom t) : (scale S m).pointAt t = scalePt m (S.pointAt t) :=
   scale_pointAt h m t ht
 
-/-- **`rotate`, end to end** (2-D and 3-D shapes, ANY numbers `c`, `s`): every evaluated point of
+/-- **`rotate`, end to end** (2-D and 3-D shapes, axis 0, 1 or 2 – for another value `operations.rotate` raises and
+    the driver answers `ERR` –, ANY numbers `c`, `s`): every evaluated point of
     `rotate S axis c s` is the point of `S` moved by the model's rotation about the evaluated start point
     (`rotateAbout`: subtract the centre, apply the rotation formulas of the axis, add the centre). -/
-theorem rotate_moves_every_point {d : ℕ} {S : Shape K} (h : ShapeWF d S) (hd : d = 2 ∨ d = 3) (axis : ℕ) (c s : K)
-    (t : ℕ → K) (ht : S.InDom t) :
+theorem rotate_moves_every_point {d : ℕ} {S : Shape K} (h : ShapeWF d S) (hd : d = 2 ∨ d = 3) (axis : ℕ)
+    (hax : axis ≤ 2) (c s : K) (t : ℕ → K) (ht : S.InDom t) :
     (rotate S axis c s).pointAt t = rotateAbout axis c s (startPoint S) (S.pointAt t) :=
   rotate_pointAt h hd axis c s t ht
 
 /-- The rotation map in coordinates: `o + R (x − o)` with the rotation matrix `rotMat` of the axis
     (2-D points: always the z axis). -/
-theorem rotation_map_coordinates (d : ℕ) (hd : d = 2 ∨ d = 3) (axis : ℕ) (c s : K) (o pt : List K)
+theorem rotation_map_coordinates (d : ℕ) (hd : d = 2 ∨ d = 3) (axis : ℕ) (hax : axis ≤ 2) (c s : K) (o pt : List K)
     (ho : o.length = d) (hpt : pt.length = d) (j : ℕ) (hj : j < d) :
     (rotateAbout axis c s o pt).getD j 0
       = o.getD j 0 + ∑ l ∈ range d, rotMat (if d = 2 then 2 else axis) c s j l * (pt.getD l 0 - o.getD l 0) :=
@@ -341,7 +345,8 @@ theorem rotation_map_coordinates (d : ℕ) (hd : d = 2 ∨ d = 3) (axis : ℕ) (
 
 /-- The centre stays where it is: the start point of the rotated shape is the start point of the
     original one (for any `c`, `s`). -/
-theorem rotate_fixes_start_point {d : ℕ} {S : Shape K} (h : ShapeWF d S) (hd : d = 2 ∨ d = 3) (axis : ℕ) (c s : K) :
+theorem rotate_fixes_start_point {d : ℕ} {S : Shape K} (h : ShapeWF d S) (hd : d = 2 ∨ d = 3) (axis : ℕ)
+    (hax : axis ≤ 2) (c s : K) :
     startPoint (rotate S axis c s) = startPoint S :=
   rotate_startPoint h hd axis c s
 
@@ -352,10 +357,10 @@ theorem transforms_keep_wellformedness {d : ℕ} {S : Shape K} (h : ShapeWF d S)
       (translate S v).degs = S.degs ∧ (translate S v).sizes = S.sizes ∧ (translate S v).rat = S.rat) ∧
     (∀ m : K, ShapeWF d (scale S m) ∧ (scale S m).kvs = S.kvs ∧ (scale S m).degs = S.degs ∧
       (scale S m).sizes = S.sizes ∧ (scale S m).rat = S.rat) ∧
-    (∀ (axis : ℕ) (c s : K), d = 2 ∨ d = 3 → ShapeWF d (rotate S axis c s) ∧ (rotate S axis c s).kvs = S.kvs ∧
+    (∀ (axis : ℕ) (c s : K), axis ≤ 2 → d = 2 ∨ d = 3 → ShapeWF d (rotate S axis c s) ∧ (rotate S axis c s).kvs = S.kvs ∧
       (rotate S axis c s).degs = S.degs ∧ (rotate S axis c s).sizes = S.sizes ∧ (rotate S axis c s).rat = S.rat) :=
   ⟨fun v hv => ⟨translate_wf h v hv, rfl, rfl, rfl, rfl⟩, fun m => ⟨scale_wf h m, rfl, rfl, rfl, rfl⟩,
-    fun axis c s hd => ⟨rotate_wf h hd axis c s, rfl, rfl, rfl, rfl⟩⟩
+    fun axis c s _ hd => ⟨rotate_wf h hd axis c s, rfl, rfl, rfl, rfl⟩⟩
 
 /-- **Weights unchanged** (rational shapes): the three transformations keep the number of control points
     and the weight coordinate of every homogeneous control point. -/
@@ -364,10 +369,10 @@ theorem transforms_keep_weights {d : ℕ} {S : Shape K} (h : ShapeWF d S) (hr : 
       ∀ i, i < S.net.length → (ptsGet (translate S v).net i).getD d 0 = (ptsGet S.net i).getD d 0) ∧
     (∀ m : K, (scale S m).net.length = S.net.length ∧
       ∀ i, i < S.net.length → (ptsGet (scale S m).net i).getD d 0 = (ptsGet S.net i).getD d 0) ∧
-    (∀ (axis : ℕ) (c s : K), d = 2 ∨ d = 3 → (rotate S axis c s).net.length = S.net.length ∧
+    (∀ (axis : ℕ) (c s : K), axis ≤ 2 → d = 2 ∨ d = 3 → (rotate S axis c s).net.length = S.net.length ∧
       ∀ i, i < S.net.length → (ptsGet (rotate S axis c s).net i).getD d 0 = (ptsGet S.net i).getD d 0) :=
   ⟨fun v hv => translate_weights h hr v hv, fun m => scale_weights h hr m,
-    fun axis c s hd => rotate_weights h hr hd axis c s⟩
+    fun axis c s _ hd => rotate_weights h hr hd axis c s⟩
 
 /-! ### the same, spelled out per kind of shape in terms of `curvePoint` / `surfacePoint` / `volumePoint`
     (`crvEval S u`, `surfEval S u v`, `volEval S u v w` are these functions on the shape's degrees, knot
@@ -380,9 +385,10 @@ theorem curve_transforms_end_to_end {d : ℕ} {S : Shape K} (h : ShapeWF d S) (h
         = translatePt v (curvePoint (S.deg 0) (fnOf (S.kv 0)) S.net u)) ∧
     (∀ m : K, curvePoint (S.deg 0) (fnOf (S.kv 0)) (scale S m).net u
         = scalePt m (curvePoint (S.deg 0) (fnOf (S.kv 0)) S.net u)) ∧
-    (∀ (axis : ℕ) (c s : K), d = 2 ∨ d = 3 → curvePoint (S.deg 0) (fnOf (S.kv 0)) (rotate S axis c s).net u
+    (∀ (axis : ℕ) (c s : K), axis ≤ 2 → d = 2 ∨ d = 3 → curvePoint (S.deg 0) (fnOf (S.kv 0)) (rotate S axis c s).net u
         = rotateAbout axis c s (startPoint S) (curvePoint (S.deg 0) (fnOf (S.kv 0)) S.net u)) :=
-  curve_transforms h h1 hr u hu1 hu2
+  ⟨(curve_transforms h h1 hr u hu1 hu2).1, (curve_transforms h h1 hr u hu1 hu2).2.1,
+   fun axis c s _ hd => (curve_transforms h h1 hr u hu1 hu2).2.2 axis c s hd⟩
 
 /-- **Rational curves** (positive weights): the projected points. -/
 theorem rational_curve_transforms_end_to_end {d : ℕ} {S : Shape K} (h : ShapeWF d S) (h1 : S.pdim = 1) (hr : S.rat = true)
@@ -391,9 +397,10 @@ theorem rational_curve_transforms_end_to_end {d : ℕ} {S : Shape K} (h : ShapeW
         = translatePt v (project (curvePoint (S.deg 0) (fnOf (S.kv 0)) S.net u))) ∧
     (∀ m : K, project (curvePoint (S.deg 0) (fnOf (S.kv 0)) (scale S m).net u)
         = scalePt m (project (curvePoint (S.deg 0) (fnOf (S.kv 0)) S.net u))) ∧
-    (∀ (axis : ℕ) (c s : K), d = 2 ∨ d = 3 → project (curvePoint (S.deg 0) (fnOf (S.kv 0)) (rotate S axis c s).net u)
+    (∀ (axis : ℕ) (c s : K), axis ≤ 2 → d = 2 ∨ d = 3 → project (curvePoint (S.deg 0) (fnOf (S.kv 0)) (rotate S axis c s).net u)
         = rotateAbout axis c s (startPoint S) (project (curvePoint (S.deg 0) (fnOf (S.kv 0)) S.net u))) :=
-  rational_curve_transforms h h1 hr u hu1 hu2
+  ⟨(rational_curve_transforms h h1 hr u hu1 hu2).1, (rational_curve_transforms h h1 hr u hu1 hu2).2.1,
+   fun axis c s _ hd => (rational_curve_transforms h h1 hr u hu1 hu2).2.2 axis c s hd⟩
 
 /-- **Non-rational surfaces**, every parameter pair of the closed domain rectangle. -/
 theorem surface_transforms_end_to_end {d : ℕ} {S : Shape K} (h : ShapeWF d S) (h2 : S.pdim = 2) (hr : S.rat = false) (u v : K)
@@ -401,9 +408,10 @@ theorem surface_transforms_end_to_end {d : ℕ} {S : Shape K} (h : ShapeWF d S) 
     (hv1 : fnOf (S.kv 1) (S.deg 1) ≤ v) (hv2 : v ≤ fnOf (S.kv 1) (S.size 1)) :
     (∀ vec : List K, vec.length = d → surfEval (translate S vec) u v = translatePt vec (surfEval S u v)) ∧
     (∀ m : K, surfEval (scale S m) u v = scalePt m (surfEval S u v)) ∧
-    (∀ (axis : ℕ) (c s : K), d = 2 ∨ d = 3 →
+    (∀ (axis : ℕ) (c s : K), axis ≤ 2 → d = 2 ∨ d = 3 →
       surfEval (rotate S axis c s) u v = rotateAbout axis c s (startPoint S) (surfEval S u v)) :=
-  surface_transforms h h2 hr u v hu1 hu2 hv1 hv2
+  ⟨(surface_transforms h h2 hr u v hu1 hu2 hv1 hv2).1, (surface_transforms h h2 hr u v hu1 hu2 hv1 hv2).2.1,
+   fun axis c s _ hd => (surface_transforms h h2 hr u v hu1 hu2 hv1 hv2).2.2 axis c s hd⟩
 
 /-- **Rational surfaces** (positive weights): the projected points. -/
 theorem rational_surface_transforms_end_to_end {d : ℕ} {S : Shape K} (h : ShapeWF d S) (h2 : S.pdim = 2) (hr : S.rat = true)
@@ -412,9 +420,10 @@ theorem rational_surface_transforms_end_to_end {d : ℕ} {S : Shape K} (h : Shap
     (∀ vec : List K, vec.length = d →
       project (surfEval (translate S vec) u v) = translatePt vec (project (surfEval S u v))) ∧
     (∀ m : K, project (surfEval (scale S m) u v) = scalePt m (project (surfEval S u v))) ∧
-    (∀ (axis : ℕ) (c s : K), d = 2 ∨ d = 3 →
+    (∀ (axis : ℕ) (c s : K), axis ≤ 2 → d = 2 ∨ d = 3 →
       project (surfEval (rotate S axis c s) u v) = rotateAbout axis c s (startPoint S) (project (surfEval S u v))) :=
-  rational_surface_transforms h h2 hr u v hu1 hu2 hv1 hv2
+  ⟨(rational_surface_transforms h h2 hr u v hu1 hu2 hv1 hv2).1, (rational_surface_transforms h h2 hr u v hu1 hu2 hv1 hv2).2.1,
+   fun axis c s _ hd => (rational_surface_transforms h h2 hr u v hu1 hu2 hv1 hv2).2.2 axis c s hd⟩
 
 /-- **Non-rational volumes**, every parameter triple of the closed domain box. -/
 theorem volume_transforms_end_to_end {d : ℕ} {S : Shape K} (h : ShapeWF d S) (h3 : S.pdim = 3) (hr : S.rat = false) (u v w : K)
@@ -423,9 +432,10 @@ theorem volume_transforms_end_to_end {d : ℕ} {S : Shape K} (h : ShapeWF d S) (
     (hw1 : fnOf (S.kv 2) (S.deg 2) ≤ w) (hw2 : w ≤ fnOf (S.kv 2) (S.size 2)) :
     (∀ vec : List K, vec.length = d → volEval (translate S vec) u v w = translatePt vec (volEval S u v w)) ∧
     (∀ m : K, volEval (scale S m) u v w = scalePt m (volEval S u v w)) ∧
-    (∀ (axis : ℕ) (c s : K), d = 2 ∨ d = 3 →
+    (∀ (axis : ℕ) (c s : K), axis ≤ 2 → d = 2 ∨ d = 3 →
       volEval (rotate S axis c s) u v w = rotateAbout axis c s (startPoint S) (volEval S u v w)) :=
-  volume_transforms h h3 hr u v w hu1 hu2 hv1 hv2 hw1 hw2
+  ⟨(volume_transforms h h3 hr u v w hu1 hu2 hv1 hv2 hw1 hw2).1, (volume_transforms h h3 hr u v w hu1 hu2 hv1 hv2 hw1 hw2).2.1,
+   fun axis c s _ hd => (volume_transforms h h3 hr u v w hu1 hu2 hv1 hv2 hw1 hw2).2.2 axis c s hd⟩
 
 /-- **Rational volumes** (positive weights): the projected points. -/
 theorem rational_volume_transforms_end_to_end {d : ℕ} {S : Shape K} (h : ShapeWF d S) (h3 : S.pdim = 3) (hr : S.rat = true)
@@ -435,16 +445,18 @@ theorem rational_volume_transforms_end_to_end {d : ℕ} {S : Shape K} (h : Shape
     (∀ vec : List K, vec.length = d →
       project (volEval (translate S vec) u v w) = translatePt vec (project (volEval S u v w))) ∧
     (∀ m : K, project (volEval (scale S m) u v w) = scalePt m (project (volEval S u v w))) ∧
-    (∀ (axis : ℕ) (c s : K), d = 2 ∨ d = 3 →
+    (∀ (axis : ℕ) (c s : K), axis ≤ 2 → d = 2 ∨ d = 3 →
       project (volEval (rotate S axis c s) u v w)
         = rotateAbout axis c s (startPoint S) (project (volEval S u v w))) :=
-  rational_volume_transforms h h3 hr u v w hu1 hu2 hv1 hv2 hw1 hw2
+  ⟨(rational_volume_transforms h h3 hr u v w hu1 hu2 hv1 hv2 hw1 hw2).1, (rational_volume_transforms h h3 hr u v w hu1 hu2 hv1 hv2 hw1 hw2).2.1,
+   fun axis c s _ hd => (rational_volume_transforms h h3 hr u v w hu1 hu2 hv1 hv2 hw1 hw2).2.2 axis c s hd⟩
 
 /-! ### any finite sequence of calls
     `Xform K`: one call (`translate v`, `scale m`, `rotate axis c s`); `x.apply S` is the model function applied
     to `S`; `applyAll S xs` applies the calls in order; `x.ptMap S` is what the call does to a point of `S`
     (`translatePt v`, `scalePt m`, `rotateAbout axis c s (startPoint S)`); `ptMapAll S xs` composes these,
-    each taken at the shape it is applied to; `x.Ok d`: the vector has `d` entries / rotations need `d ∈ {2,3}`. -/
+    each taken at the shape it is applied to; `x.Ok d`: the vector has `d` entries / rotations need `d ∈ {2,3}` and
+    `axis ≤ 2`. -/
 
 /-- **Composition**: after any finite sequence of the three transformations every evaluated point of the
     closed domain is the original point moved by the composed point map. -/
@@ -482,7 +494,7 @@ theorem sequence_keeps_knots_and_weights {d : ℕ} (xs : List (Xform K)) {S : Sh
 
 /-- non-vacuity of `rotate_moves_every_point` (and of `ShapeWF`, `InDom`): axis 1, `c = 3/5`, `s = 4/5` -/
 example : (rotate exSurf 1 (3/5) (4/5)).pointAt exT = rotateAbout 1 (3/5) (4/5) (startPoint exSurf) (exSurf.pointAt exT) :=
-  rotate_moves_every_point exSurf_wf (Or.inr rfl) 1 (3/5) (4/5) exT exT_inDom
+  rotate_moves_every_point exSurf_wf (Or.inr rfl) 1 (by omega) (3/5) (4/5) exT exT_inDom
 
 /-- … and the two sides are the concrete point `(-48/95, 15/19, 111/95)`; the centre is `(0, 1/2, 0)` -/
 example : (rotate exSurf 1 (3/5) (4/5)).pointAt exT = [-48/95, 15/19, 111/95] ∧ startPoint exSurf = [0, 1/2, 0] := by
@@ -506,7 +518,7 @@ example : startPoint exVol = project (ptsGet exVol.net 0) := by
     · have : i = 2 := by omega
       subst this; rfl
   have hwf : ShapeWF 3 exVol := by
-    refine ⟨Or.inr (Or.inr rfl), ?_, rfl, ?_, ?_⟩
+    refine ⟨Or.inr (Or.inr rfl), ?_, rfl, ?_, ?_, ?_, ?_⟩
     · intro i hi
       have hi' : i < 3 := hi
       rcases i with _ | _ | _ | i
@@ -517,6 +529,20 @@ example : startPoint exVol = project (ptsGet exVol.net 0) := by
     · show NetOk 4 exVol.net
       intro pt hpt; simp [exVol] at hpt; rcases hpt with h|h|h|h|h|h|h|h <;> simp [h]
     · intro _ pt hpt; simp [exVol] at hpt; rcases hpt with h|h|h|h|h|h|h|h <;> simp [h]
+    · intro i hi
+      have hi' : i < 3 := hi
+      rcases i with _ | _ | _ | i
+      · rfl
+      · rfl
+      · rfl
+      · omega
+    · intro i hi
+      have hi' : i < 3 := hi
+      rcases i with _ | _ | _ | i
+      · decide
+      · decide
+      · decide
+      · omega
   have := startPoint_of_clamped_shape hwf (by
     intro i hi
     have hi' : i < 3 := hi
